@@ -345,6 +345,13 @@ theorem inv_setDial {s : St} (hI : Inv s) (p : Nat) (ok : Bool) : Inv (setDial s
   rw [this]
   exact inv_updPool hI p _ (fun pl => ⟨⟨rfl, rfl, rfl, rfl⟩, id⟩)
 
+theorem expire_eq (s : St) (p : Nat) : expire s p = updPool s p (fun pl => { pl with banPassed := true }) := by
+  unfold expire updPool setPool; rfl
+
+theorem inv_expire {s : St} (hI : Inv s) (p : Nat) : Inv (expire s p) := by
+  rw [expire_eq]
+  exact inv_updPool hI p _ (fun pl => ⟨⟨rfl, rfl, rfl, rfl⟩, id⟩)
+
 theorem inv_release {s : St} (hI : Inv s) (p : Nat) : Inv (release s p) := by
   unfold release
   cases hl : s.pools[p]? with
@@ -493,6 +500,7 @@ theorem inv_step {s : St} (hI : Inv s) (op : Op) : Inv (step s op) := by
   | lose c => exact inv_lose hI c
   | vanish c => exact inv_conns hI (ext_vanish _ c)
   | setDial p ok => exact inv_setDial hI p ok
+  | expire p => exact inv_expire hI p
   | release p => exact inv_release hI p
   | close p => exact inv_close hI p
   | setSlave p b => exact inv_setIsSlave hI p b
